@@ -394,6 +394,18 @@ func init() {
 						continue
 					}
 					if g.Name == "valSwap" {
+						// the sequential form evaluates the operands again after the first store, the parallel form evaluates both
+						// before it stores: they agree only when neither operand occurs inside the other (a[i] and a[a[i]] do not)
+						notContains := func(v, w string) bool {
+							for _, cj := range r.Where.conjuncts() {
+								if cj.Op == "FilterNotOp" && len(cj.Args) == 1 && cj.Args[0].Op == "FilterVarContainsOp" && cj.Args[0].Value == v && len(cj.Args[0].Args) == 1 && cj.Args[0].Args[0].Value == "$"+w {
+									return true
+								}
+							}
+							return false
+						}
+						c.direct = append(c.direct, &directResult{Name: pn + "/operands-do-not-contain-each-other", OK: notContains("x", "y") && notContains("y", "x"),
+							Detail: fmt.Sprintf("pattern %q: `tmp := a[i]; a[i] = a[a[i]]; a[a[i]] = tmp` is not `a[i], a[a[i]] = a[a[i]], a[i]` - the rule must exclude operands that contain each other (!m[\"x\"].Contains(`$y`) && !m[\"y\"].Contains(`$x`))", pat)})
 						// tmp := y; y = x; x = tmp   versus   y, x = x, y  (operands denote variables)
 						c.addLemma(pn+"/swap-is-equivalent", []string{"(declare-fun x0 () Int)", "(declare-fun y0 () Int)"}, nil,
 							"(let ((tmp y0)) (let ((y1 x0)) (let ((x1 tmp)) (and (= y1 x0) (= x1 y0)))))")
